@@ -165,6 +165,43 @@ def hi_body(ctx, p):
     ctx.close(b.ravel(), L @ draws, 1e-10, "int-seeded screen == L applied to the seeded generator's draws", scale=float(np.max(np.abs(b))) or 1.0, name="seeded path")
 
 
+def rows_cases(tier):
+    """Screens of the sizes simulations use (beyond 256 samples, not only powers of two)."""
+    sizes = [258, 320, 384, 500, 600] if tier == "quick" else [258, 260, 288, 320, 384, 400, 500, 512, 600, 640, 768, 1000]
+    return [{"N": N, "delta": 0.05, "r0": 0.15, "L0": L0, "l0": 0.01, "seed": 17 * N + k} for N in sizes for k, L0 in enumerate([20.0, 1e6][:1 if tier == "quick" else 2])]
+
+
+def rows_body(ctx, p):
+    """One unit draw in EVERY frequency row (random column), real part and imaginary part in two calls: the two screens are the
+    real and (minus) the imaginary part of a sum of N plane waves whose amplitudes are sqrt(Phi(f)) df of the frequencies hit -
+    read back with a 2-D FFT and compared as a multiset (no shift / sign convention assumed; the spectrum is isotropic)."""
+    N, delta, r0, L0, l0 = p["N"], p["delta"], p["r0"], p["L0"], p["l0"]
+    ctx.case(p, nontrivial=True, classes=["N%d" % N, "power_of_two" if N & (N - 1) == 0 else "not_power_of_two"])
+    rng = gen.np_rng(p["seed"])
+    cols = rng.integers(0, N, size=N)
+    e = np.zeros(2 * N * N)
+    e[np.arange(N) * N + cols] = 1.0
+    def run(vec):
+        s_ = Scripted()
+        s_.feed(vec)
+        with warnings.catch_warnings():
+            warnings.simplefilter("ignore")
+            with np.errstate(all="ignore"):
+                return PSm().ft_phase_screen(r0, N, delta, L0, l0, seed=s_)
+    pr = run(e)
+    pi_ = run(np.roll(e, N * N))
+    ctx.require(pr.shape == (N, N), "screen shape %s" % (pr.shape,))
+    S = np.abs(np.fft.fft2(pr - 1j * pi_)) / (N * N)
+    df = 1.0 / (N * delta)
+    ky, kx = np.arange(N) - N // 2, cols - N // 2
+    A = np.sqrt(spectrum(kx * df, ky * df, r0, L0, l0)) * df
+    A[(kx == 0) & (ky == 0)] = 0.0
+    top = np.sort(S.ravel())[::-1]
+    want = np.sort(A)[::-1]
+    ctx.close(top[:N], want, 1e-9, "N=%d: amplitudes of the plane waves excited by one unit draw in every frequency row == sqrt(Phi(f)) df (as a multiset)" % N, scale=float(want[0]), name="row-sampled spectrum amplitudes")
+    ctx.require(float(top[N]) <= 1e-9 * float(want[0]), "N=%d: one unit draw per frequency row excites more than N plane waves (next amplitude %.3g)" % (N, float(top[N])))
+
+
 def sh_body(ctx, p):
     N, delta, r0, L0, l0 = p["N"], p["delta"], p["r0"], p["L0"], p["l0"]
     ctx.case(p, nontrivial=N >= 4, classes=["N%d" % N])
@@ -381,5 +418,6 @@ LAWS = [
     given_law("hi_covariance", cfgs(24), hi_body, {"quick": 12, "thorough": 100}, shards={"quick": 6, "thorough": 16}),
     given_law("sub_harmonics", cfgs(16), sh_body, {"quick": 8, "thorough": 80}, shards={"quick": 6, "thorough": 16}),
     given_law("hi_covariance_large", cfgs(32), hi_body, {"quick": 2, "thorough": 20}, shards={"quick": 3, "thorough": 16}),
+    plain_law("row_sampled_spectrum_realistic_size", rows_cases, rows_body, shards={"quick": 5, "thorough": 12}),
     plain_law("trends", trend_cases, trend_body, shards={"quick": 2, "thorough": 2}),
 ]
